@@ -334,7 +334,7 @@ func (s *Staking) distributeRewards(ctx *context) (map[common.Address]struct{}, 
 
 		// check if need to settle
 		if val.RewardsLastSettled < currRound && val.RewardsLastSettled+forceSettleGap <= currRound {
-			settleValidatorRewards(ctx, val, currRound)
+			settleValidatorRewards(ctx, newVal, currRound)
 			settled[val.MainAddress()] = struct{}{}
 		}
 	}
